@@ -35,7 +35,8 @@ type Rule struct {
 // read-only one so that writes fail but later seeks and reads work), corrupt (overwrite the file's
 // content with garbage so that the following decode fails), truncate (cut the
 // last byte off the file so that its final record cannot be read), readonly-once
-// (read-only for the one operation that follows: a transient write failure).
+// (read-only for the one operation that follows: a transient write failure), einval-once (a pipe in the
+// file's place for the one operation that follows: Sync fails with EINVAL).
 type Fault struct {
 	Step   string `json:"step"`
 	Occ    int    `json:"occ"`
@@ -219,6 +220,32 @@ func (s *Scheduler) apply(ft Fault, f *os.File) {
 						saved = -1
 					}
 					syscall.Close(ro)
+				}
+				if saved >= 0 {
+					syscall.Close(saved)
+				}
+			}
+		}
+	case "einval-once":
+		// the descriptor refers to a pipe for the one operation that follows: an fsync on it fails with
+		// EINVAL ("this kind of file cannot be synced"), not with the EBADF of a closed file; the next
+		// step on the same file puts the real descriptor back
+		if f != nil {
+			if saved, err := syscall.Dup(int(f.Fd())); err == nil {
+				var pp [2]int
+				if err := syscall.Pipe(pp[:]); err == nil {
+					if err := syscall.Dup2(pp[1], int(f.Fd())); err == nil {
+						desc = "put a pipe in the place of " + filepath.Base(f.Name()) + " for one operation"
+						s.mu.Lock()
+						if s.restore == nil {
+							s.restore = map[*os.File]int{}
+						}
+						s.restore[f] = saved
+						s.mu.Unlock()
+						saved = -1
+					}
+					syscall.Close(pp[0])
+					syscall.Close(pp[1])
 				}
 				if saved >= 0 {
 					syscall.Close(saved)
